@@ -110,3 +110,183 @@ def g_unit_table(repo, tier):
     return {"total": total, "ok": ok, "failures": fails, "samples": samples,
             "assumptions": ["spec/unit_definitions.py (independent definitions, written by hand)",
                             "sympy exact arithmetic (ground evaluator)"]}
+
+
+# ------------------------------------------------------------------------------ C15
+def _unit_expr_eval(T, text):
+    """independent evaluator of a unit expression string over the extracted table:
+    names (symbol or SI prefix + prefixable symbol), * / ** and numbers -> (scale, dimvec)"""
+    import ast as _ast
+
+    def lookup(name):
+        if name in T.lut:
+            r = T.lut[name]
+            return sympy.sympify(r[0]), T.dimvec(r[1])
+        for p, (pv, _) in T.prefixes.items():
+            rest = name[len(p):]
+            if name.startswith(p) and rest in T.lut and T.lut[rest][4]:
+                r = T.lut[rest]
+                return sympy.sympify(r[0]) * sympy.nsimplify(pv), T.dimvec(r[1])
+        raise KeyError(name)
+
+    def ev(n):
+        if isinstance(n, _ast.Name):
+            return lookup(n.id)
+        if isinstance(n, _ast.Constant):
+            return sympy.nsimplify(n.value), [sympy.Integer(0)] * len(T.base)
+        if isinstance(n, _ast.UnaryOp) and isinstance(n.op, _ast.USub):
+            s, d = ev(n.operand)
+            return -s, d
+        if isinstance(n, _ast.BinOp):
+            if isinstance(n.op, _ast.Pow):
+                s, d = ev(n.left)
+                e, _ = ev(n.right)
+                return s ** e, [x * e for x in d]
+            a, da = ev(n.left)
+            b, db = ev(n.right)
+            if isinstance(n.op, _ast.Mult):
+                return a * b, [x + y for x, y in zip(da, db)]
+            if isinstance(n.op, _ast.Div):
+                return a / b, [x - y for x, y in zip(da, db)]
+        raise ValueError("unit expression %r" % text)
+    return ev(_ast.parse(text, mode="eval").body)
+
+
+REPLAY_CONST = '''import sys
+import unyt
+from unyt import physical_constants as pc
+q = getattr(pc, %(name)r)
+print(%(name)r, "=", repr(q), " in mks:", repr(q.in_mks()))
+%(body)s
+'''
+
+
+def g_constants(repo, tier):
+    """C15: defining relations hold symbolically (for arbitrary values of the primitive
+    measured numbers), every constant agrees with its independent value within its class,
+    a name that is both a unit and a constant is one quantity, names are single-valued."""
+    from spec import constants as SC
+    T = tables(repo)
+    key_sym = ("sym", repo)
+    if key_sym not in _cache:
+        _cache[key_sym] = Tables(repo, symbolic=True)
+    TS = _cache[key_sym]
+    total = ok = 0
+    fails = []
+    samples = []
+
+    def si(TT, name):
+        value, unit_name, _aliases = TT.constants[name]
+        s, dv = _unit_expr_eval(TT, unit_name)
+        return sympy.sympify(value) * s, dv
+
+    # 1. coverage both ways
+    for name in T.constants:
+        total += 1
+        if name in SC.VALUES:
+            ok += 1
+        else:
+            fails.append({"key": "C15.G[%s:no-spec]" % name, "what": "constant %r has no independent "
+                          "value in spec/constants.py" % name})
+    for name in SC.VALUES:
+        total += 1
+        if name in T.constants:
+            ok += 1
+        else:
+            fails.append({"key": "C15.G[%s:missing]" % name, "what": "constant %r is not in the "
+                          "physical_constants table" % name})
+    # 2. values and dimensions
+    for name in T.constants:
+        if name not in SC.VALUES:
+            continue
+        total += 1
+        want, wdim, cls = SC.VALUES[name]
+        try:
+            got, gdim = si(T, name)
+        except Exception as e:
+            fails.append({"key": "C15.G[%s:value]" % name, "what": "cannot evaluate: %r" % (e,)})
+            continue
+        want = _P(want)
+        want_dim = [sympy.Rational(wdim.get(b, "0")) for b in T.base]
+        problems = []
+        if gdim != want_dim:
+            problems.append("dimension %s != %s" % (gdim, want_dim))
+        if cls == "exact":
+            if not _same_exact(got, want):
+                problems.append("value %s != defined value %s" % (sympy.N(got, 15), sympy.N(want, 15)))
+        elif not _close(got, want, SC.RTOL[cls]):
+            problems.append("value %s not within %s of the published %s" % (
+                sympy.N(got, 12), SC.RTOL[cls], sympy.N(want, 12)))
+        if problems:
+            fails.append({"key": "C15.G[%s:value]" % name, "what": "; ".join(problems),
+                          "replay": REPLAY_CONST % {"name": name, "body":
+                              "want = %r\nv = float(q.in_mks().v)\nprint('published', want)\n"
+                              "sys.exit(1 if abs(v-want) > %s*abs(want) else 0)" % (
+                                  float(sympy.N(want, 17)), SC.RTOL.get(cls, "1e-12"))}})
+        else:
+            ok += 1
+            if len(samples) < 3:
+                samples.append({"constant": name, "si_value": str(sympy.N(got, 12)), "class": cls})
+    # 3. defining relations, symbolically in the primitives
+    symvals = {}
+    for name in TS.constants:
+        try:
+            symvals[name] = si(TS, name)[0]
+        except Exception:
+            pass
+    for label, expr in SC.RELATIONS.items():
+        total += 1
+        try:
+            loc = {k: v for k, v in symvals.items()}
+            loc["pi"] = sympy.pi
+            e = sympy.sympify(expr, locals=loc)
+            z = sympy.simplify(e)
+            if z != 0:
+                z = sympy.simplify(sympy.expand(sympy.powdenest(e, force=True)))
+        except Exception as ex:
+            fails.append({"key": "C15.P1[%s]" % label, "what": "cannot evaluate relation: %r" % (ex,)})
+            continue
+        if z == 0:
+            ok += 1
+            if len(samples) < 5:
+                samples.append({"relation": label, "holds_for": "all values of the primitive numbers"})
+        else:
+            fails.append({"key": "C15.P1[%s]" % label,
+                          "what": "relation does not hold identically: residual %s" % str(z)[:200]})
+    # 4. unit == constant for names that are both
+    for name in SC.UNIT_AND_CONSTANT:
+        total += 1
+        if name not in T.lut or name not in T.constants:
+            fails.append({"key": "C15.G2[%s]" % name, "what": "expected both a unit and a constant named %r" % name})
+            continue
+        cs, cd = si(TS, name)
+        us, ud = sympy.sympify(TS.lut[name][0]), TS.dimvec(TS.lut[name][1])
+        cn, _ = si(T, name)
+        un = sympy.sympify(T.lut[name][0])
+        if cd == ud and sympy.simplify(cs - us) == 0 and _same_exact(cn, un):
+            ok += 1
+        else:
+            fails.append({"key": "C15.G2[%s]" % name,
+                          "what": "unit %s = %s (dims %s) but constant %s = %s (dims %s)" % (
+                              name, sympy.N(un, 12), ud, name, sympy.N(cn, 12), cd),
+                          "replay": "import sys, unyt\nfrom unyt import physical_constants as pc\n"
+                                    "u = (1.0*unyt.Unit(%r)).in_mks(); c = getattr(pc, %r).in_mks()\n"
+                                    "print('unit', u, 'constant', c)\n"
+                                    "sys.exit(1 if abs(float(u.v)-float(c.v)) > 1e-12*abs(float(c.v)) else 0)\n" % (name, name)})
+    # 5. names single-valued
+    seen = {}
+    for name, (value, unit_name, aliases) in T.constants.items():
+        for n in [name] + list(aliases):
+            total += 1
+            if n in seen and seen[n] != name:
+                fails.append({"key": "C15.G[%s:duplicate-name]" % n,
+                              "what": "name %r is listed for both %r and %r" % (n, seen[n], name)})
+            else:
+                ok += 1
+                seen[n] = name
+    return {"total": total, "ok": ok, "failures": fails, "samples": samples,
+            "assumptions": ["spec/constants.py (independent values and defining relations, written by hand)",
+                            "sympy exact arithmetic and simplification (ground evaluator)",
+                            "symbolic mode: numeric literals assigned at the top level of "
+                            "_physical_ratios.py are free positive symbols; everything else in the two "
+                            "table modules is executed as written"]}
